@@ -27,4 +27,18 @@ pub assume_specification<T: std::cmp::PartialEq> [<[T]>::contains] (s: &[T], x: 
     ensures <T as PartialEqSpec>::obeys_eq_spec() ==> r == exists|i: int| 0 <= i < s@.len() && (#[trigger] s@[i]).eq_spec(x);
 broadcast use {vstd::std_specs::hash::group_hash_axioms, ax::axiom_string_ext};
 //@verify functions.contains
+// ---- duration(): nom's parse_duration is out of reach; its result is the uninterpreted pd_spec (remaining text, nanoseconds) ----
+pub uninterp spec fn pd_spec(i: Seq<char>) -> Option<(Seq<char>, int)>;
+#[verifier::external_body] pub struct NomErr { _p: u8 }
+#[verifier::external_body] pub fn __nom_err_text(e: &NomErr) -> String { unimplemented!() }
+pub mod duration {
+    use super::*;
+    /// interpreter/src/duration.rs parse_duration (nom combinators + f64): ASSUMED to be a function of its input text
+    #[verifier::external_body]
+    pub fn parse_duration(i: &str) -> (r: Result<(&str, chrono::Duration), NomErr>)
+        ensures match pd_spec(i@) { Some(p) => r matches Ok(q) && q.0@ == p.0 && chrono::dur_ns(q.1) == p.1, None => r is Err }
+    { unimplemented!() }
+}
+//@assume lib.function_error
+//@verify functions._duration
 //@include prelude/tail_std.rs
